@@ -1,8 +1,634 @@
-import MCHap.Model.Pedigree
+import MCHap.Proofs.PedigreeAllele
+import MCHap.Proofs.PedigreeEnum
 import MCHap.Proofs.MH
-import MCHap.Properties.C17
+import MCHap.Properties.C02
 
+/-!
+# C18 — the pedigree sampler moves are stationary at the joint pedigree posterior
+
+Target on ORDERED joint states: `πo(s) = jointWith f P s · ∏_i factProd(s_i)` — the joint posterior of
+the unordered genotypes spread uniformly over the orderings of every genotype (`factProd g = ∏ mult!
+= ploidy!/#orderings`).  The theorems about the factorisation are generic in the trio function `f`
+(`trioPmfCode`, the model of `trio_log_pmf`, or the specification `trioPmf`).
+-/
 namespace MCHap.C18
 open MCHap
+
+/-! ### the joint factorises over the Markov blanket of one individual -/
+
+theorem prod_split (L : List ℕ) (p : ℕ → Bool) (g : ℕ → ℚ) :
+    (L.map g).prod = ((L.filter p).map g).prod * ((L.filter (fun i => !p i)).map g).prod := by
+  induction L with
+  | nil => simp
+  | cons a L ih =>
+    by_cases h : p a
+    · simp [h, ih, mul_assoc]
+    · simp [h, ih]; ring
+
+theorem prod_range_split (N t : ℕ) (ht : t < N) (g : ℕ → ℚ) :
+    ((List.range N).map g).prod = g t * (((List.range N).filter (fun i => decide (i ≠ t))).map g).prod := by
+  rw [prod_split (List.range N) (fun i => decide (i = t)) g]
+  have h1 : (List.range N).filter (fun i => decide (i = t)) = [t] := by
+    have hnd : (List.range N).Nodup := List.nodup_range
+    have hc : (List.range N).count t = 1 := by simp [List.count_range, ht]
+    have := List.filter_eq (l := List.range N) t
+    rw [this, hc]; rfl
+  have h2 : (fun i => !(fun i => decide (i = t)) i) = (fun i : ℕ => decide (i ≠ t)) := by
+    funext i; simp
+  rw [h1, h2]; simp
+
+/-- everything in the joint that does not involve the genotype of `t` -/
+def restWith (f : Trio → ℚ) (P : Ped) (s : PedState) (t : ℕ) : ℚ :=
+  (((List.range P.size).filter (fun i => decide (i ≠ t))).map (fun i => likOf P s i)).prod
+  * (((List.range P.size).filter (fun i => decide (i ≠ t) && !isChild P t i)).map
+      (fun i => f (trioOf P s i))).prod
+
+/-- `J(s) = lik_t · blanket_t(s) · rest_t(s)` -/
+theorem blanket_factor (f : Trio → ℚ) (P : Ped) (s : PedState) (t : ℕ) (ht : t < P.size)
+    (hself : isChild P t t = false) :
+    jointWith f P s = likOf P s t * blanketWith f P s t * restWith f P s t := by
+  unfold jointWith blanketWith restWith
+  rw [List.prod_map_mul, prod_range_split P.size t ht (fun i => likOf P s i),
+    prod_range_split P.size t ht (fun i => f (trioOf P s i)),
+    prod_split ((List.range P.size).filter (fun i => decide (i ≠ t))) (isChild P t) (fun i => f (trioOf P s i))]
+  have hc : ((List.range P.size).filter (fun i => decide (i ≠ t))).filter (isChild P t) = childrenOf P t := by
+    unfold childrenOf
+    rw [List.filter_filter]
+    apply List.filter_congr
+    intro i _
+    by_cases h : i = t
+    · subst h; simp [hself]
+    · simp [h]
+  have hn : ((List.range P.size).filter (fun i => decide (i ≠ t))).filter (fun i => !isChild P t i)
+      = (List.range P.size).filter (fun i => decide (i ≠ t) && !isChild P t i) := by
+    rw [List.filter_filter]
+    apply List.filter_congr
+    intro i _; exact Bool.and_comm _ _
+  rw [hc, hn]
+  ring
+
+theorem getD_set_ne (s : PedState) (t i : ℕ) (g : List ℕ) (h : i ≠ t) : (s.set t g).getD i [] = s.getD i [] := by
+  simp [List.getD_eq_getElem?_getD, List.getElem?_set_ne (Ne.symm h)]
+
+theorem trioOf_set_ne (P : Ped) (s : PedState) (t i : ℕ) (g : List ℕ) (hi : i ≠ t)
+    (hc : isChild P t i = false) : trioOf P (s.set t g) i = trioOf P s i := by
+  unfold isChild at hc
+  simp only [Bool.or_eq_false_iff, decide_eq_false_iff_not] at hc
+  obtain ⟨h1, h2⟩ := hc
+  have key : ∀ j : ℤ, j ≠ (t : ℤ) →
+      (if j < 0 then zeros P.n else countsOf P.n ((s.set t g).getD j.toNat []))
+        = (if j < 0 then zeros P.n else countsOf P.n (s.getD j.toNat [])) := by
+    intro j hj
+    by_cases hneg : j < 0
+    · simp [hneg]
+    · simp only [hneg, if_false]
+      have : j.toNat ≠ t := by
+        intro e
+        apply hj
+        have := Int.toNat_of_nonneg (by omega : 0 ≤ j)
+        omega
+      rw [getD_set_ne s t _ g this]
+  unfold trioOf
+  simp only [getD_set_ne s t i g hi, key _ h1, key _ h2]
+
+/-- the rest does not change when the genotype of `t` changes -/
+theorem rest_invariant (f : Trio → ℚ) (P : Ped) (s : PedState) (t : ℕ) (g : List ℕ) :
+    restWith f P (s.set t g) t = restWith f P s t := by
+  unfold restWith
+  congr 1
+  · congr 1
+    apply List.map_congr_left
+    intro i hi
+    have : i ≠ t := by simpa using (List.mem_filter.mp hi).2
+    unfold likOf
+    rw [getD_set_ne s t i g this]
+  · congr 1
+    apply List.map_congr_left
+    intro i hi
+    have h := (List.mem_filter.mp hi).2
+    simp only [Bool.and_eq_true, decide_eq_true_eq, Bool.not_eq_true'] at h
+    rw [trioOf_set_ne P s t i g h.1 h.2]
+
+/-- **blanket ratio**: for a change at one individual, the ratio of joints equals the ratio of
+    (likelihood × Markov blanket) — stated without division -/
+theorem blanket_ratio (f : Trio → ℚ) (P : Ped) (s : PedState) (t : ℕ) (g : List ℕ) (ht : t < P.size)
+    (hself : isChild P t t = false) :
+    jointWith f P (s.set t g) * (likOf P s t * blanketWith f P s t)
+      = jointWith f P s * (likOf P (s.set t g) t * blanketWith f P (s.set t g) t) := by
+  rw [blanket_factor f P s t ht hself, blanket_factor f P (s.set t g) t ht hself, rest_invariant]
+  ring
+
+/-! ### Metropolis–Hastings update of one allele copy -/
+
+/-- **detailed balance of the single-allele MH move** w.r.t. `J · ∏ mult!` on the ordered alleles
+    of the target individual, with the allele-copy-count proposal ratio of
+    `metropolis_hastings_probabilities` (instance of `MH.base_step_db`) -/
+theorem ped_mh_db (f : Trio → ℚ) (P : Ped) (s : PedState) (t : ℕ) (pre post : List ℕ) (a b : ℕ)
+    (hw : ∀ g, 0 < jointWith f P (s.set t g)) :
+    let w := fun g : List ℕ => ((jointWith f P (s.set t g) : ℚ) : ℝ)
+    let g := pre ++ a :: post
+    let g' := pre ++ b :: post
+    let πo := fun z : List ℕ => w z * (MH.factProd z : ℝ)
+    πo g * min 1 ((w g' / w g) * ((g'.count b : ℝ) / (g.count a : ℝ)))
+      = πo g' * min 1 ((w g / w g') * ((g.count a : ℝ) / (g'.count b : ℝ))) :=
+  MH.base_step_db (fun g : List ℕ => ((jointWith f P (s.set t g) : ℚ) : ℝ))
+    (fun g => by exact_mod_cast hw g) pre post a b
+
+/-- the ratio `metropolis_hastings_probabilities` forms from likelihood × Markov blanket is the
+    ratio of joints -/
+theorem mh_ratio_joint (f : Trio → ℚ) (P : Ped) (s : PedState) (t : ℕ) (g : List ℕ) (ht : t < P.size)
+    (hself : isChild P t t = false) (hJ : jointWith f P s ≠ 0) :
+    (likOf P (s.set t g) t * blanketWith f P (s.set t g) t) / (likOf P s t * blanketWith f P s t)
+      = jointWith f P (s.set t g) / jointWith f P s := by
+  have h := blanket_ratio f P s t g ht hself
+  have hb : likOf P s t * blanketWith f P s t ≠ 0 := by
+    intro e
+    apply hJ
+    rw [blanket_factor f P s t ht hself, e]; ring
+  rw [div_eq_div_iff hb hJ]
+  linear_combination -h
+
+/-! ### exchange of one allele between the two parents of a family -/
+
+/-- **detailed balance of the parental allele swap** on ordered states: uniform choice of one slot
+    in each parent (a symmetric proposal), acceptance with the ratio the code uses,
+    `(1 + c_p(b)) (1 + c_q(a)) / (c_p(a) c_q(b))`, w.r.t. `w · mult!(g_p) · mult!(g_q)` -/
+theorem swap_db {α : Type} [DecidableEq α] (w : List α → List α → ℝ) (hw : ∀ g h, 0 < w g h)
+    (pre1 post1 pre2 post2 : List α) (a b : α) (hab : a ≠ b) :
+    let gp := pre1 ++ a :: post1
+    let gq := pre2 ++ b :: post2
+    let gp' := pre1 ++ b :: post1
+    let gq' := pre2 ++ a :: post2
+    let πo := fun x y : List α => w x y * (MH.factProd x : ℝ) * (MH.factProd y : ℝ)
+    πo gp gq * min 1 ((w gp' gq' / w gp gq)
+        * ((((1 + gp.count b) * (1 + gq.count a) : ℕ) : ℝ) / ((gp.count a * gq.count b : ℕ) : ℝ)))
+      = πo gp' gq' * min 1 ((w gp gq / w gp' gq')
+        * ((((1 + gp'.count a) * (1 + gq'.count b) : ℕ) : ℝ) / ((gp'.count b * gq'.count a : ℕ) : ℝ))) := by
+  intro gp gq gp' gq' πo
+  have hba : b ≠ a := fun e => hab e.symm
+  have c1 : 1 + gp.count b = gp'.count b := by
+    simp only [gp, gp', List.count_append, List.count_cons, beq_self_eq_true, if_true]
+    have : (a == b) = false := by simpa using hab
+    simp [this]; omega
+  have c2 : 1 + gq.count a = gq'.count a := by
+    simp only [gq, gq', List.count_append, List.count_cons, beq_self_eq_true, if_true]
+    have : (b == a) = false := by simpa using hba
+    simp [this]; omega
+  have c3 : 1 + gp'.count a = gp.count a := by
+    simp only [gp, gp', List.count_append, List.count_cons, beq_self_eq_true, if_true]
+    have : (b == a) = false := by simpa using hba
+    simp [this]; omega
+  have c4 : 1 + gq'.count b = gq.count b := by
+    simp only [gq, gq', List.count_append, List.count_cons, beq_self_eq_true, if_true]
+    have : (a == b) = false := by simpa using hab
+    simp [this]; omega
+  rw [c1, c2, c3, c4]
+  have k1 : (MH.factProd gp : ℝ) * (gp'.count b : ℝ) = (MH.factProd gp' : ℝ) * (gp.count a : ℝ) := by
+    exact_mod_cast MH.factProd_swap pre1 post1 a b
+  have k2 : (MH.factProd gq : ℝ) * (gq'.count a : ℝ) = (MH.factProd gq' : ℝ) * (gq.count b : ℝ) := by
+    exact_mod_cast MH.factProd_swap pre2 post2 b a
+  have pos : ∀ l : List α, (0 : ℝ) < (MH.factProd l : ℝ) := by
+    intro l
+    have : 0 < MH.factProd l := Finset.prod_pos (fun x _ => Nat.factorial_pos _)
+    exact_mod_cast this
+  have hca : (0 : ℝ) < (gp.count a : ℝ) := by
+    have : 0 < gp.count a := by simp only [gp]; rw [MH.count_mid]; omega
+    exact_mod_cast this
+  have hcb : (0 : ℝ) < (gq.count b : ℝ) := by
+    have : 0 < gq.count b := by simp only [gq]; rw [MH.count_mid]; omega
+    exact_mod_cast this
+  have hca' : (0 : ℝ) < (gq'.count a : ℝ) := by
+    have : 0 < gq'.count a := by simp only [gq']; rw [MH.count_mid]; omega
+    exact_mod_cast this
+  have hcb' : (0 : ℝ) < (gp'.count b : ℝ) := by
+    have : 0 < gp'.count b := by simp only [gp']; rw [MH.count_mid]; omega
+    exact_mod_cast this
+  have hp : 0 < πo gp gq := mul_pos (mul_pos (hw _ _) (pos _)) (pos _)
+  have hq : 0 < πo gp' gq' := mul_pos (mul_pos (hw _ _) (pos _)) (pos _)
+  have e1 : (w gp' gq' / w gp gq) * (((gp'.count b * gq'.count a : ℕ) : ℝ) / ((gp.count a * gq.count b : ℕ) : ℝ))
+      = πo gp' gq' / πo gp gq := by
+    simp only [πo]
+    push_cast
+    rw [div_mul_div_comm, div_eq_div_iff (mul_pos (hw _ _) (mul_pos hca hcb)).ne' hp.ne']
+    linear_combination (w gp' gq' * w gp gq * ((MH.factProd gq : ℝ) * (gq'.count a : ℝ))) * k1
+      + (w gp' gq' * w gp gq * ((MH.factProd gp' : ℝ) * (gp.count a : ℝ))) * k2
+  have e2 : (w gp gq / w gp' gq') * (((gp.count a * gq.count b : ℕ) : ℝ) / ((gp'.count b * gq'.count a : ℕ) : ℝ))
+      = πo gp gq / πo gp' gq' := by
+    simp only [πo]
+    push_cast
+    rw [div_mul_div_comm, div_eq_div_iff (mul_pos (hw _ _) (mul_pos hcb' hca')).ne' hq.ne']
+    linear_combination (-(w gp' gq' * w gp gq * ((MH.factProd gq : ℝ) * (gq'.count a : ℝ)))) * k1
+      - (w gp' gq' * w gp gq * ((MH.factProd gp' : ℝ) * (gp.count a : ℝ))) * k2
+  rw [e1, e2]
+  exact MH.mh_core _ _ hp hq
+
+/-! ### the swap acts on the joint through the blanket of the parental pair -/
+
+theorem prod_nodup_split (L : List ℕ) (hL : L.Nodup) (t : ℕ) (ht : t ∈ L) (g : ℕ → ℚ) :
+    (L.map g).prod = g t * ((L.filter (fun i => decide (i ≠ t))).map g).prod := by
+  rw [prod_split L (fun i => decide (i = t)) g]
+  have h1 : L.filter (fun i => decide (i = t)) = [t] := by
+    have hc : L.count t = 1 := List.count_eq_one_of_mem hL ht
+    have := List.filter_eq (l := L) t
+    rw [this, hc]; rfl
+  have h2 : (fun i => !(fun i => decide (i = t)) i) = (fun i : ℕ => decide (i ≠ t)) := by
+    funext i; simp
+  rw [h1, h2]; simp
+
+/-- everything in the joint that involves neither parent of the pair -/
+def restPair (f : Trio → ℚ) (P : Ped) (s : PedState) (p q : ℕ) : ℚ :=
+  (((List.range P.size).filter (fun i => decide (i ≠ p) && decide (i ≠ q))).map (fun i => likOf P s i)).prod
+  * (((List.range P.size).filter (fun i =>
+        !(decide (i = p) || decide (i = q) || isChild P p i || isChild P q i))).map
+      (fun i => f (trioOf P s i))).prod
+
+/-- `J(s) = lik_p · lik_q · (blanket of the pair) · rest` -/
+theorem pair_factor (f : Trio → ℚ) (P : Ped) (s : PedState) (p q : ℕ) (hp : p < P.size) (hq : q < P.size)
+    (hpq : p ≠ q) :
+    jointWith f P s = (likOf P s p * likOf P s q) * pairPrior f P s p q * restPair f P s p q := by
+  unfold jointWith pairPrior restPair pairBlanket
+  rw [List.prod_map_mul, prod_range_split P.size p hp (fun i => likOf P s i)]
+  have hnd : ((List.range P.size).filter (fun i => decide (i ≠ p))).Nodup := List.nodup_range.filter _
+  have hqm : q ∈ (List.range P.size).filter (fun i => decide (i ≠ p)) := by
+    rw [List.mem_filter]; exact ⟨List.mem_range.mpr hq, by simpa using (Ne.symm hpq)⟩
+  rw [prod_nodup_split _ hnd q hqm (fun i => likOf P s i), List.filter_filter,
+    prod_split (List.range P.size)
+      (fun i => decide (i = p) || decide (i = q) || isChild P p i || isChild P q i) (fun i => f (trioOf P s i))]
+  have e : (fun i => decide (i ≠ q) && decide (i ≠ p)) = (fun i : ℕ => decide (i ≠ p) && decide (i ≠ q)) := by
+    funext i; exact Bool.and_comm _ _
+  rw [e]
+  ring
+
+theorem rest_pair_invariant (f : Trio → ℚ) (P : Ped) (s : PedState) (p q : ℕ) (g h : List ℕ) :
+    restPair f P ((s.set p g).set q h) p q = restPair f P s p q := by
+  unfold restPair
+  congr 1
+  · congr 1
+    apply List.map_congr_left
+    intro i hi
+    have hc := (List.mem_filter.mp hi).2
+    simp only [Bool.and_eq_true, decide_eq_true_eq] at hc
+    unfold likOf
+    rw [getD_set_ne _ q i h hc.2, getD_set_ne s p i g hc.1]
+  · congr 1
+    apply List.map_congr_left
+    intro i hi
+    have hc := (List.mem_filter.mp hi).2
+    simp only [Bool.not_eq_true', Bool.or_eq_false_iff, decide_eq_false_iff_not] at hc
+    obtain ⟨⟨⟨h1, h2⟩, h3⟩, h4⟩ := hc
+    rw [trioOf_set_ne P _ q i h h2 h4, trioOf_set_ne P s p i g h1 h3]
+
+/-- for a change of the two parental genotypes, the ratio of joints equals the ratio of
+    (the two likelihoods × the pair's blanket) — stated without division -/
+theorem pair_blanket_ratio (f : Trio → ℚ) (P : Ped) (s : PedState) (p q : ℕ) (g h : List ℕ)
+    (hp : p < P.size) (hq : q < P.size) (hpq : p ≠ q) :
+    let s' := (s.set p g).set q h
+    jointWith f P s' * ((likOf P s p * likOf P s q) * pairPrior f P s p q)
+      = jointWith f P s * ((likOf P s' p * likOf P s' q) * pairPrior f P s' p q) := by
+  intro s'
+  rw [pair_factor f P s p q hp hq hpq, pair_factor f P s' p q hp hq hpq, rest_pair_invariant]
+  ring
+
+/-- `swapState` writes the two exchanged alleles -/
+theorem swapState_eq (s : PedState) (p q ip iq : ℕ) (hpq : p ≠ q) :
+    swapState s p q ip iq
+      = (s.set p ((s.getD p []).set ip ((s.getD q []).getD iq 0))).set q
+          ((s.getD q []).set iq ((s.getD p []).getD ip 0)) := by
+  unfold swapState
+  simp only
+  rw [getD_set_ne s p q _ (Ne.symm hpq)]
+
+/-- **detailed balance of the parental allele swap, pedigree level**: instance of `swap_db` with the
+    joint as a function of the ordered genotypes of the two (distinct) parents -/
+theorem ped_swap_db (f : Trio → ℚ) (P : Ped) (s : PedState) (p q : ℕ)
+    (pre1 post1 pre2 post2 : List ℕ) (a b : ℕ) (hab : a ≠ b)
+    (hw : ∀ g h, 0 < jointWith f P ((s.set p g).set q h)) :
+    let w := fun g h : List ℕ => ((jointWith f P ((s.set p g).set q h) : ℚ) : ℝ)
+    let gp := pre1 ++ a :: post1
+    let gq := pre2 ++ b :: post2
+    let gp' := pre1 ++ b :: post1
+    let gq' := pre2 ++ a :: post2
+    let πo := fun x y : List ℕ => w x y * (MH.factProd x : ℝ) * (MH.factProd y : ℝ)
+    πo gp gq * min 1 ((w gp' gq' / w gp gq)
+        * ((((1 + gp.count b) * (1 + gq.count a) : ℕ) : ℝ) / ((gp.count a * gq.count b : ℕ) : ℝ)))
+      = πo gp' gq' * min 1 ((w gp gq / w gp' gq')
+        * ((((1 + gp'.count a) * (1 + gq'.count b) : ℕ) : ℝ) / ((gp'.count b * gq'.count a : ℕ) : ℝ))) :=
+  swap_db (fun g h : List ℕ => ((jointWith f P ((s.set p g).set q h) : ℚ) : ℝ))
+    (fun g h => by exact_mod_cast hw g h) pre1 post1 pre2 post2 a b hab
+
+theorem swapLik_eq (P : Ped) (s : PedState) (p q : ℕ) : swapLik P s p q = likOf P s p * likOf P s q := rfl
+
+/-- the ratio `pair_allele_swap_step` forms from the two likelihoods and the pair's blanket is the
+    ratio of joints (each parent's reads masked with its own counts: the F5 repair) -/
+theorem swap_ratio_joint (P : Ped) (s : PedState) (p q ip iq : ℕ) (hp : p < P.size) (hq : q < P.size)
+    (hpq : p ≠ q) (hJ : jointWith trioPmfCode P s ≠ 0) :
+    (swapLik P (swapState s p q ip iq) p q / swapLik P s p q)
+        * (pairPrior trioPmfCode P (swapState s p q ip iq) p q / pairPrior trioPmfCode P s p q)
+      = jointWith trioPmfCode P (swapState s p q ip iq) / jointWith trioPmfCode P s := by
+  rw [swapState_eq s p q ip iq hpq, swapLik_eq, swapLik_eq]
+  have h := pair_blanket_ratio trioPmfCode P s p q ((s.getD p []).set ip ((s.getD q []).getD iq 0))
+    ((s.getD q []).set iq ((s.getD p []).getD ip 0)) hp hq hpq
+  simp only at h
+  have hb : (likOf P s p * likOf P s q) * pairPrior trioPmfCode P s p q ≠ 0 := by
+    intro e
+    apply hJ
+    rw [pair_factor trioPmfCode P s p q hp hq hpq, e]; ring
+  have hb1 : likOf P s p * likOf P s q ≠ 0 := fun e => hb (by rw [e]; ring)
+  have hb2 : pairPrior trioPmfCode P s p q ≠ 0 := fun e => hb (by rw [e]; ring)
+  rw [div_mul_div_comm, div_eq_div_iff (mul_ne_zero hb1 hb2) hJ]
+  linear_combination -h
+
+/-! ### the Gibbs update -/
+
+/-- **per-gamete identity** behind the allele-level pmf: (gamete without one copy of `x`) ×
+    (probability of then drawing `x`, double reduction included) `= (g_x/τ)` × gamete pmf -/
+theorem hyper_allele_step (dp a : List ℕ) (pp tau x : ℕ) (lam : ℚ) (hlen : a.length = dp.length)
+    (hsum : a.sum = tau) (hdp : dp.sum = pp) (htp : tau ≤ pp) (hlam0 : 0 ≤ lam) (hlam : lam ≠ 0 → tau = 2) :
+    gameteConstPmf x a tau dp pp * gameteAllelePmf (a.getD x 0) tau (dp.getD x 0) pp lam
+      = ((a.getD x 0 : ℚ) / (tau : ℚ)) * gametePmf a tau dp pp lam :=
+  gamete_allele_step dp a pp tau x lam hlen hsum hdp htp hlam0 hlam
+
+/-- the same for a gamete of unknown origin: `U(g − e_x) · f_x = (g_x/τ) · U(g)` -/
+theorem unknown_allele_step (fs : List ℚ) (a : List ℕ) (x : ℕ) (hl : a.length ≤ fs.length) :
+    unknownConstPmf fs a x * fs.getD x 0 = ((a.getD x 0 : ℚ) / (a.sum : ℚ)) * unknownPmf fs a :=
+  MCHap.unknown_allele_step fs a x hl
+
+theorem countsOf_length (n : ℕ) (g : List ℕ) : (countsOf n g).length = n := by simp [countsOf]
+
+theorem countsOf_getD (n : ℕ) (g : List ℕ) (x : ℕ) (hx : x < n) : (countsOf n g).getD x 0 = g.count x := by
+  simp [countsOf, List.getD_eq_getElem?_getD, List.getElem?_map, List.getElem?_range hx]
+
+theorem countsOf_sum (n : ℕ) (g : List ℕ) (h : ∀ a ∈ g, a < n) : (countsOf n g).sum = g.length := by
+  have h1 := C05.sum_count_range n g h
+  have h2 : (((countsOf n g).sum : ℕ) : ℚ) = ((List.range n).map (fun a => (g.count a : ℚ))).sum := by
+    rw [Nat.cast_list_sum]; simp [countsOf, Function.comp_def]
+  rw [h1] at h2
+  exact_mod_cast h2
+
+/-- with equal gamete sizes `τ_p = τ_q = τ` the weights `1, 1` of the code before the F6 repair give
+    the constant per-pair multiplier `d_x/τ` -/
+theorem kappa_balanced_old (tau a b dx : ℕ) (h : a + b = dx) :
+    gameteWeightOld tau tau tau * ((a : ℚ) / (tau : ℚ)) + gameteWeightOld tau tau tau * ((b : ℚ) / (tau : ℚ))
+      = (dx : ℚ) / (tau : ℚ) := by
+  simp only [gameteWeightOld, one_mul]
+  rw [← h]; push_cast; ring
+
+/-- the weights `2 τ_i / (τ_p + τ_q)` give the constant `2 d_x / (τ_p + τ_q)` for every pair of
+    gamete sizes (stated for an arbitrary weight function) -/
+theorem kappa_of_fixed_weights (w : ℕ → ℕ → ℕ → ℚ) (tp tq a b dx : ℕ) (h : a + b = dx)
+    (hw : ∀ tau, w tau tp tq = 2 * (tau : ℚ) / ((tp + tq : ℕ) : ℚ)) (ha : a ≤ tp) (hb : b ≤ tq) :
+    w tp tp tq * ((a : ℚ) / (tp : ℚ)) + w tq tp tq * ((b : ℚ) / (tq : ℚ))
+      = 2 * ((dx : ℚ) / ((tp + tq : ℕ) : ℚ)) := by
+  rw [hw tp, hw tq, ← h]
+  have ea : 2 * (tp : ℚ) / ((tp + tq : ℕ) : ℚ) * ((a : ℚ) / (tp : ℚ)) = 2 * ((a : ℚ) / ((tp + tq : ℕ) : ℚ)) := by
+    by_cases h0 : tp = 0
+    · have : a = 0 := by omega
+      subst this; simp
+    · have : (tp : ℚ) ≠ 0 := by exact_mod_cast h0
+      field_simp
+  have eb : 2 * (tq : ℚ) / ((tp + tq : ℕ) : ℚ) * ((b : ℚ) / (tq : ℚ)) = 2 * ((b : ℚ) / ((tp + tq : ℕ) : ℚ)) := by
+    by_cases h0 : tq = 0
+    · have : b = 0 := by omega
+      subst this; simp
+    · have : (tq : ℚ) ≠ 0 := by exact_mod_cast h0
+      field_simp
+  rw [ea, eb]; push_cast; ring
+
+/-- the literal enumerator only yields gametes of the right size below the progeny vector -/
+theorem enumDosage_enumSound (tau : ℕ) (d dp : List ℕ) (lam : ℚ) (h : d.length = dp.length) :
+    EnumSound enumDosage tau (constraintOf d dp lam) d := by
+  intro g hg
+  obtain ⟨h1, h2⟩ := enumDosage_sound tau _ g hg
+  exact ⟨h1, forall₂_le_trans h2 (constraintOf_le d dp lam h)⟩
+
+/-- trio level, any weight function: the allele-level pmf with the literal enumerator is `κ` times
+    the trio pmf whenever the per-pair multiplier is the constant `κ` -/
+theorem trio_allele_weighted (w : ℕ → ℕ → ℕ → ℚ) (T : Trio) (x : ℕ) (κ : ℚ)
+    (hsum : T.d.sum = T.tp + T.tq) (hfs : T.d.length ≤ T.fs.length)
+    (hp : T.validP = true → ParentWF T.dp T.pp T.tp T.lp T.d.length)
+    (hq : T.validQ = true → ParentWF T.dq T.pq T.tq T.lq T.d.length)
+    (hκ : ∀ a b : ℕ, a + b = T.d.getD x 0 → a ≤ T.tp → b ≤ T.tq →
+      w T.tp T.tp T.tq * ((a : ℚ) / (T.tp : ℚ)) + w T.tq T.tp T.tq * ((b : ℚ) / (T.tq : ℚ)) = κ)
+    (hκ2 : 2 * ((T.d.getD x 0 : ℚ) / ((T.tp + T.tq : ℕ) : ℚ)) = κ) :
+    trioAlleleWith w enumDosage T x = κ * trioPmfCode T := by
+  unfold trioPmfCode
+  apply trio_allele_scaled w enumDosage T x κ hsum hfs _ _ hκ hκ2
+  · intro hv
+    have h := hp hv
+    exact ⟨h, enumDosage_enumSound _ _ _ _ h.1.symm⟩
+  · intro hv
+    have h := hq hv
+    exact ⟨h, enumDosage_enumSound _ _ _ _ h.1.symm⟩
+
+/-- trio level, the weights before the F6 repair: exact only for balanced gametes -/
+theorem trio_allele_balanced_old (T : Trio) (x tau : ℕ) (htp : T.tp = tau) (htq : T.tq = tau)
+    (hsum : T.d.sum = tau + tau) (hfs : T.d.length ≤ T.fs.length)
+    (hp : T.validP = true → ParentWF T.dp T.pp T.tp T.lp T.d.length)
+    (hq : T.validQ = true → ParentWF T.dq T.pq T.tq T.lq T.d.length) :
+    trioAlleleWith gameteWeightOld enumDosage T x = ((T.d.getD x 0 : ℚ) / (tau : ℚ)) * trioPmfCode T := by
+  apply trio_allele_weighted gameteWeightOld T x _ (by rw [htp, htq]; exact hsum) hfs hp hq
+  · intro a b hab _ _
+    rw [htp, htq]
+    exact kappa_balanced_old tau a b _ hab
+  · rw [htp, htq]
+    by_cases h0 : tau = 0
+    · subst h0; simp
+    · have : (tau : ℚ) ≠ 0 := by exact_mod_cast h0
+      push_cast
+      field_simp
+      ring
+
+/-- **trio level, every pair of gamete sizes**: what `trio_allele_log_pmf` computes is
+    `2 d_x/(τ_p+τ_q)` times the inheritance probability of the genotype (balanced, unbalanced, clonal)
+    — normalising it over the candidate alleles gives the conditional of the trio pmf on ordered genotypes -/
+theorem trio_allele_exact (T : Trio) (x : ℕ)
+    (hsum : T.d.sum = T.tp + T.tq) (hfs : T.d.length ≤ T.fs.length)
+    (hp : T.validP = true → ParentWF T.dp T.pp T.tp T.lp T.d.length)
+    (hq : T.validQ = true → ParentWF T.dq T.pq T.tq T.lq T.d.length) :
+    trioAlleleCode T x = (2 * ((T.d.getD x 0 : ℚ) / ((T.tp + T.tq : ℕ) : ℚ))) * trioPmfCode T := by
+  unfold trioAlleleCode
+  apply trio_allele_weighted gameteWeight T x _ hsum hfs hp hq
+  · intro a b hab ha hb
+    exact kappa_of_fixed_weights gameteWeight T.tp T.tq a b _ hab (fun tau => rfl) ha hb
+  · rfl
+
+theorem getD_set_self (s : PedState) (t : ℕ) (g : List ℕ) (ht : t < s.length) : (s.set t g).getD t [] = g := by
+  simp [List.getD_eq_getElem?_getD, ht]
+
+/-- pedigree level, any weight function: if for every candidate allele the allele-level pmf of the
+    target's own trio is `count_x · K` times its trio pmf, the Gibbs vector is the normalisation of
+    `J(s[t,k := x]) · ∏ mult!(genotype of t)` — the exact full conditional on ordered states -/
+theorem ped_gibbs_scaled (w : ℕ → ℕ → ℕ → ℚ) (P : Ped) (s : PedState) (t : ℕ) (pre post : List ℕ) (c : ℕ) (K : ℚ)
+    (ht : t < P.size) (hts : t < s.length) (hself : isChild P t t = false)
+    (hg : s.getD t [] = pre ++ c :: post) (hK : K ≠ 0)
+    (hscale : ∀ x, x < P.n → let T := trioOf P (setAllele s t pre.length x) t
+        trioAlleleWith w enumDosage T x = (((pre ++ x :: post).count x : ℚ) * K) * trioPmfCode T)
+    (hR : restWith trioPmfCode P s t ≠ 0) :
+    gibbsProbabilitiesW w P s t pre.length
+      = normalise ((List.range P.n).map (fun x =>
+          jointWith trioPmfCode P (setAllele s t pre.length x) * (MH.factProd (pre ++ x :: post) : ℚ))) := by
+  set F : ℚ := (MH.factProd (pre ++ post) : ℚ) with hF
+  have hFpos : F ≠ 0 := by
+    have : 0 < MH.factProd (pre ++ post) := Finset.prod_pos (fun x _ => Nat.factorial_pos _)
+    rw [hF]; exact_mod_cast this.ne'
+  set R := restWith trioPmfCode P s t with hRdef
+  set D : ℚ := R * F / K with hD
+  have hD0 : D ≠ 0 := div_ne_zero (mul_ne_zero hR hFpos) hK
+  have hset : ∀ x, setAllele s t pre.length x = s.set t (pre ++ x :: post) := by
+    intro x; unfold setAllele; rw [hg]; simp
+  have hw : pedGibbsWeightsWith (trioAlleleWith w enumDosage) trioPmfCode P s t pre.length
+      = ((List.range P.n).map (fun x =>
+          jointWith trioPmfCode P (setAllele s t pre.length x) * (MH.factProd (pre ++ x :: post) : ℚ))).map (· / D) := by
+    unfold pedGibbsWeightsWith
+    rw [List.map_map]
+    apply List.map_congr_left
+    intro x hx
+    have hxn : x < P.n := List.mem_range.mp hx
+    simp only [Function.comp]
+    have hgx : (setAllele s t pre.length x).getD t [] = pre ++ x :: post := by
+      rw [hset, getD_set_self s t _ hts]
+    have hbal := hscale x hxn
+    simp only at hbal
+    unfold blanketAlleleWith
+    have hk : ((setAllele s t pre.length x).getD t []).getD pre.length 0 = x := by
+      rw [hgx]; simp [List.getD_eq_getElem?_getD]
+    rw [hk, hbal]
+    have hJ := blanket_factor trioPmfCode P (setAllele s t pre.length x) t ht hself
+    have hrest : restWith trioPmfCode P (setAllele s t pre.length x) t = R := by
+      rw [hset, rest_invariant]
+    rw [hrest] at hJ
+    unfold blanketWith at hJ
+    rw [hJ, MH.factProd_mid, MH.count_mid]
+    rw [hD]
+    push_cast
+    field_simp
+    rw [hF]
+  unfold gibbsProbabilitiesW
+  rw [hw, C02.normalise_scale _ _ hD0]
+
+/-- facts about the candidate genotypes shared by the two corollaries below -/
+theorem candidate_trio (P : Ped) (s : PedState) (t : ℕ) (pre post : List ℕ) (c x tp tq : ℕ)
+    (hts : t < s.length) (hg : s.getD t [] = pre ++ c :: post)
+    (htau : P.tau.getD t (0, 0) = (tp, tq))
+    (hlen : (pre ++ post).length + 1 = tp + tq) (hal : ∀ a ∈ pre ++ post, a < P.n) (hxn : x < P.n) :
+    let T := trioOf P (setAllele s t pre.length x) t
+    T.tp = tp ∧ T.tq = tq ∧ T.d.sum = tp + tq ∧ T.d.length = P.n ∧ T.fs = P.freqs ∧
+    T.d.getD x 0 = (pre ++ x :: post).count x := by
+  intro T
+  have hset : setAllele s t pre.length x = s.set t (pre ++ x :: post) := by
+    unfold setAllele; rw [hg]; simp
+  have hgx : (setAllele s t pre.length x).getD t [] = pre ++ x :: post := by
+    rw [hset, getD_set_self s t _ hts]
+  have hall : ∀ a ∈ pre ++ x :: post, a < P.n := by
+    intro a ha
+    simp only [List.mem_append, List.mem_cons] at ha
+    rcases ha with h | h | h
+    · exact hal a (by simp [h])
+    · rw [h]; exact hxn
+    · exact hal a (by simp [h])
+  have hd : T.d = countsOf P.n (pre ++ x :: post) := by
+    show countsOf P.n ((setAllele s t pre.length x).getD t []) = _
+    rw [hgx]
+  refine ⟨?_, ?_, ?_, ?_, rfl, ?_⟩
+  · show (P.tau.getD t (0, 0)).1 = tp
+    rw [htau]
+  · show (P.tau.getD t (0, 0)).2 = tq
+    rw [htau]
+  · rw [hd, countsOf_sum _ _ hall]
+    simp only [List.length_append, List.length_cons] at hlen ⊢; omega
+  · rw [hd, countsOf_length]
+  · rw [hd, countsOf_getD _ _ _ hxn]
+
+/-- **Gibbs = exact full conditional** for EVERY pair of gamete sizes of the target individual
+    (balanced, unbalanced `(1,3)`, `(1,2)`, clonal `(2,0)`), any pedigree around it (unknown parents,
+    selfing, mixed ploidy, children of any kind).  The vector `gibbs_probabilities` returns for slot
+    `k = |pre|` of individual `t` is the normalisation of `J(s[t,k := x]) · ∏ mult!(genotype of t)`
+    over the candidate alleles `x`: the full conditional of the ordered-state target whose unordered
+    marginal is the joint `J`. -/
+theorem ped_gibbs_is_conditional (P : Ped) (s : PedState) (t : ℕ) (pre post : List ℕ) (c tp tq : ℕ)
+    (ht : t < P.size) (hts : t < s.length) (hself : isChild P t t = false)
+    (hg : s.getD t [] = pre ++ c :: post)
+    (htau : P.tau.getD t (0, 0) = (tp, tq))
+    (hlen : (pre ++ post).length + 1 = tp + tq) (hal : ∀ a ∈ pre ++ post, a < P.n)
+    (hfs : P.n ≤ P.freqs.length)
+    (hp : ∀ x, x < P.n → let T := trioOf P (setAllele s t pre.length x) t
+        T.validP = true → ParentWF T.dp T.pp T.tp T.lp T.d.length)
+    (hq : ∀ x, x < P.n → let T := trioOf P (setAllele s t pre.length x) t
+        T.validQ = true → ParentWF T.dq T.pq T.tq T.lq T.d.length)
+    (hR : restWith trioPmfCode P s t ≠ 0) :
+    gibbsProbabilities P s t pre.length
+      = normalise ((List.range P.n).map (fun x =>
+          jointWith trioPmfCode P (setAllele s t pre.length x) * (MH.factProd (pre ++ x :: post) : ℚ))) := by
+  have hT : ((tp + tq : ℕ) : ℚ) ≠ 0 := by
+    have : tp + tq ≠ 0 := by omega
+    exact_mod_cast this
+  show gibbsProbabilitiesW gameteWeight P s t pre.length = _
+  apply ped_gibbs_scaled gameteWeight P s t pre post c (2 / ((tp + tq : ℕ) : ℚ)) ht hts hself hg
+    (div_ne_zero (by norm_num) hT) _ hR
+  intro x hxn
+  obtain ⟨h1, h2, h3, h4, h5, h6⟩ := candidate_trio P s t pre post c x tp tq hts hg htau hlen hal hxn
+  intro T
+  have := trio_allele_exact T x (by rw [h1, h2]; exact h3) (by rw [h4, h5]; exact hfs) (hp x hxn) (hq x hxn)
+  unfold trioAlleleCode at this
+  rw [this, h6, h1, h2]; ring
+
+/-- with the weights before the F6 repair the same holds only for balanced gametes `τ_p = τ_q` -/
+theorem ped_gibbs_old_weights_balanced (P : Ped) (s : PedState) (t : ℕ) (pre post : List ℕ) (c tau : ℕ)
+    (ht : t < P.size) (hts : t < s.length) (hself : isChild P t t = false)
+    (hg : s.getD t [] = pre ++ c :: post)
+    (htau : P.tau.getD t (0, 0) = (tau, tau)) (htau0 : tau ≠ 0)
+    (hlen : (pre ++ post).length + 1 = tau + tau) (hal : ∀ a ∈ pre ++ post, a < P.n)
+    (hfs : P.n ≤ P.freqs.length)
+    (hp : ∀ x, x < P.n → let T := trioOf P (setAllele s t pre.length x) t
+        T.validP = true → ParentWF T.dp T.pp T.tp T.lp T.d.length)
+    (hq : ∀ x, x < P.n → let T := trioOf P (setAllele s t pre.length x) t
+        T.validQ = true → ParentWF T.dq T.pq T.tq T.lq T.d.length)
+    (hR : restWith trioPmfCode P s t ≠ 0) :
+    gibbsProbabilitiesW gameteWeightOld P s t pre.length
+      = normalise ((List.range P.n).map (fun x =>
+          jointWith trioPmfCode P (setAllele s t pre.length x) * (MH.factProd (pre ++ x :: post) : ℚ))) := by
+  have htq : (tau : ℚ) ≠ 0 := by exact_mod_cast htau0
+  apply ped_gibbs_scaled gameteWeightOld P s t pre post c (1 / (tau : ℚ)) ht hts hself hg (by positivity) _ hR
+  intro x hxn
+  obtain ⟨h1, h2, h3, h4, h5, h6⟩ := candidate_trio P s t pre post c x tau tau hts hg htau hlen hal hxn
+  intro T
+  have := trio_allele_balanced_old T x tau h1 h2 h3 (by rw [h4, h5]; exact hfs) (hp x hxn) (hq x hxn)
+  rw [this, h6]; ring
+
+/-! ### concrete instances: non-vacuity, and the defect of the old weights -/
+
+/-- diploid × tetraploid → triploid trio (`τ = (1, 2)`), two haplotypes, no reads -/
+def exPed : Ped where
+  nb := 1
+  haps := [[0], [1]]
+  freqs := [1/2, 1/2]
+  ploidy := [2, 4, 3]
+  parents := [(-1, -1), (-1, -1), (0, 1)]
+  tau := [(1, 1), (2, 2), (1, 2)]
+  lam := [(0, 0), (0, 0), (0, 0)]
+  err := [(0, 0), (0, 0), (1/10, 1/10)]
+  reads := [[], [], []]
+
+def exState : PedState := [[0, 1], [0, 0, 0, 1], [0, 0, 1]]
+
+/-- the exact full conditional of slot 0 of the triploid child -/
+def exConditional : List ℚ :=
+  normalise ((List.range exPed.n).map (fun x =>
+    jointWith trioPmfCode exPed (setAllele exState 2 0 x) * (MH.factProd ([] ++ x :: [0, 1]) : ℚ)))
+
+/-- **the seeded defect F6, machine-checked**: with the old weights (both gamete-of-origin terms
+    added with weight one) the Gibbs vector of an unbalanced `τ = (1, 2)` individual is NOT the exact
+    full conditional: `(49/80, 31/80)` against `(13/20, 7/20)` -/
+theorem gibbs_old_weights_counterexample :
+    gibbsProbabilitiesW gameteWeightOld exPed exState 2 0 = [49/80, 31/80] ∧
+    exConditional = [13/20, 7/20] ∧
+    gibbsProbabilitiesW gameteWeightOld exPed exState 2 0 ≠ exConditional := by
+  decide +kernel
+
+/-- non-vacuity of `ped_gibbs_is_conditional` on the same instance: the model of the current code
+    returns the exact conditional -/
+example : gibbsProbabilities exPed exState 2 0 = exConditional ∧
+    restWith trioPmfCode exPed exState 2 ≠ 0 ∧ isChild exPed 2 2 = false := by
+  decide +kernel
 
 end MCHap.C18
